@@ -3,9 +3,9 @@
 #include "vkeys.h"
 using namespace v;
 
-struct Cell { int prov; std::string key; int octlen; jwt_alg_t alg; int op; int flag = 0; };  // op 0 generate, 1 verify; flag 1: the JWK carries "alg":256, so the item is flagged with an error although its key material loaded (setkey takes such items)
+struct Cell { int prov; std::string key; int octlen; jwt_alg_t alg; int op; int flag = 0; int attr = 0; };   // attr 1: the JWK itself carries "alg": <the algorithm in use> (1: pinned by the key and by setkey; 2: by the key alone, setkey gets JWT_ALG_NONE)  // op 0 generate, 1 verify; flag 1: the JWK carries "alg":256, so the item is flagged with an error although its key material loaded (setkey takes such items)
 static Cell CUR;
-static std::string cell_json(const Cell &c) { return "{\"prov\":" + std::to_string(c.prov) + ",\"key\":\"" + c.key + "\",\"octlen\":" + std::to_string(c.octlen) + ",\"alg\":\"" + jwt_alg_str(c.alg) + "\",\"op\":\"" + (c.op ? "verify" : "generate") + "\",\"flag\":" + std::to_string(c.flag) + "}"; }
+static std::string cell_json(const Cell &c) { return "{\"prov\":" + std::to_string(c.prov) + ",\"key\":\"" + c.key + "\",\"octlen\":" + std::to_string(c.octlen) + ",\"alg\":\"" + jwt_alg_str(c.alg) + "\",\"op\":\"" + (c.op ? "verify" : "generate") + "\",\"flag\":" + std::to_string(c.flag) + ",\"attr\":" + std::to_string(c.attr) + "}"; }
 
 static std::map<std::string, KeySpec> FIX;
 static const KeySpec &fixture(const std::string &n) { auto it = FIX.find(n); if (it != FIX.end()) return it->second; return FIX[n] = load_fixture(n); }
@@ -17,7 +17,7 @@ static std::string run_cell(const Cell &c, const KeySpec &k, bool *nt) {
   bool ok_strength = strength_ok(k, c.alg);
   // "within one step of a threshold"
   if (nt) { *nt = false; if (k.kind == K_OCT) { int need = hs_min_bits(c.alg) / 8; *nt = abs(c.octlen - need) <= 1; } else if (k.kind == K_RSA) *nt = k.bits >= 2040 && k.bits <= 2056; else *nt = true; }
-  JwkOpts o; if (c.flag) o.alg_raw = "256"; o.priv = true; LKey priv(jwk_json(k, o)); o.priv = false; LKey pub(jwk_json(k, o));
+  JwkOpts o; if (c.flag) o.alg_raw = "256"; else if (c.attr) o.alg = jwt_alg_str(c.alg); o.priv = true; LKey priv(jwk_json(k, o)); o.priv = false; LKey pub(jwk_json(k, o));
   if (c.flag) {   // only the "never succeeds below the floor" direction is demanded of an item that reports an error
     if (!priv.item || !pub.item) return ""; st.cls("flagged-item-with-loaded-key"); if (ok_strength) { st.cls("flagged-item-at-or-above-floor(not-judged)"); return ""; }
   } else
@@ -28,7 +28,7 @@ static std::string run_cell(const Cell &c, const KeySpec &k, bool *nt) {
   const AlgInfo *ai = alg_info(c.alg);
   if (c.op == 0) {
     jwt_builder_t *b = jwt_builder_new(); std::string r;
-    if (jwt_builder_setkey(b, c.alg, priv.item)) { jwt_builder_free(b); return ok_strength ? "setkey-refuses-adequate-key" : ""; }
+    if (jwt_builder_setkey(b, c.attr == 2 ? JWT_ALG_NONE : c.alg, priv.item)) { jwt_builder_free(b); return ok_strength ? "setkey-refuses-adequate-key" : ""; }
     jwt_builder_error_clear(b);
     char *out = jwt_builder_generate(b);
     int flag = jwt_builder_error(b); std::string msg = jwt_builder_error_msg(b) ? jwt_builder_error_msg(b) : "";
@@ -37,7 +37,7 @@ static std::string run_cell(const Cell &c, const KeySpec &k, bool *nt) {
     else if (!out && (!flag || msg.empty())) r = "generate-null-without-error";
     else if (out) {
       // the produced token must verify with the public key under the same provider
-      jwt_checker_t *ch = jwt_checker_new(); jwt_checker_setkey(ch, c.alg, pub.item);
+      jwt_checker_t *ch = jwt_checker_new(); jwt_checker_setkey(ch, c.attr == 2 ? JWT_ALG_NONE : c.alg, pub.item);
       if (jwt_checker_verify(ch, out)) r = std::string("token-from-adequate-key-does-not-verify:") + jwt_checker_error_msg(ch);
       jwt_checker_free(ch);
       if (r.empty() && !ref_valid(k, out)) r = "token-from-adequate-key-invalid-for-reference-verifier";
@@ -57,7 +57,7 @@ static std::string run_cell(const Cell &c, const KeySpec &k, bool *nt) {
       if (!sg.empty()) { tok = in + "." + b64u_enc(sg); st.cls("cross-family-token-signed-with-the-key's-native-alg"); }
     }
     jwt_checker_t *ch = jwt_checker_new(); std::string r;
-    if (jwt_checker_setkey(ch, c.alg, pub.item)) { jwt_checker_free(ch); return ok_strength ? "setkey-refuses-adequate-key" : ""; }
+    if (jwt_checker_setkey(ch, c.attr == 2 ? JWT_ALG_NONE : c.alg, pub.item)) { jwt_checker_free(ch); return ok_strength ? "setkey-refuses-adequate-key" : ""; }
     jwt_checker_error_clear(ch);
     int ret = jwt_checker_verify(ch, tok.c_str()); int flag = jwt_checker_error(ch); std::string msg = jwt_checker_error_msg(ch) ? jwt_checker_error_msg(ch) : "";
     if (ret == 0 && !ok_strength) r = std::string("verify-succeeds-below-floor:") + (k.kind == K_OCT ? "hmac" : k.kind == K_RSA ? "rsa" : k.kind == K_EC ? "ec" : "okp");
@@ -79,7 +79,7 @@ int main(int argc, char **argv) {
   if (!a.replay.empty()) {
     J j = J::parse(read_file(a.replay)); if (!j) return 2;
     Cell c; c.prov = (int)json_integer_value(json_object_get(j.p, "prov")); c.key = json_string_value(json_object_get(j.p, "key")); c.octlen = (int)json_integer_value(json_object_get(j.p, "octlen"));
-    c.alg = jwt_str_alg(json_string_value(json_object_get(j.p, "alg"))); c.op = !strcmp(json_string_value(json_object_get(j.p, "op")), "verify"); c.flag = (int)json_integer_value(json_object_get(j.p, "flag"));
+    c.alg = jwt_str_alg(json_string_value(json_object_get(j.p, "alg"))); c.op = !strcmp(json_string_value(json_object_get(j.p, "op")), "verify"); c.flag = (int)json_integer_value(json_object_get(j.p, "flag")); c.attr = (int)json_integer_value(json_object_get(j.p, "attr"));
     KeySpec k = c.octlen > 0 ? oct_key("oct" + std::to_string(c.octlen), c.octlen) : fixture(c.key);
     std::string r = run_cell(c, k, nullptr); if (!r.empty()) fprintf(stderr, "replay: %s\n", r.c_str());
     return r.empty() ? 0 : 3;
@@ -102,8 +102,10 @@ int main(int argc, char **argv) {
     cells.push_back({Cell{prov, "oct", 48, JWT_ALG_ES384, op}, oct_key("oct48", 48)}); cells.push_back({Cell{prov, "oct", 57, JWT_ALG_EDDSA, op}, oct_key("oct57", 57)}); cells.push_back({Cell{prov, "oct", 66, JWT_ALG_ES512, op}, oct_key("oct66", 66)});
     cells.push_back({Cell{prov, "oct", 256, JWT_ALG_RS256, op}, oct_key("oct256", 256)}); cells.push_back({Cell{prov, "oct", 256, JWT_ALG_PS512, op}, oct_key("oct256", 256)}); cells.push_back({Cell{prov, "oct", 512, JWT_ALG_RS512, op}, oct_key("oct512", 512)});
   }
+  // every same-family cell again with a key that names the algorithm itself ("alg" member)
+  { size_t n0 = cells.size(); for (size_t i = 0; i < n0; i++) { const AlgInfo *ai = alg_info(cells[i].first.alg); if (!ai || ai->kind != cells[i].second.kind) continue; auto c2 = cells[i]; c2.first.attr = 1; cells.push_back(c2); c2.first.attr = 2; cells.push_back(c2); } }
   // every cell again with an item that is flagged with an error although its key material loaded
-  { size_t n0 = cells.size(); for (size_t i = 0; i < n0; i++) { if (cells[i].first.key == "oct" && cells[i].first.octlen % 8 && cells[i].first.octlen > 70) continue; auto c2 = cells[i]; c2.first.flag = 1; cells.push_back(c2); } }
+  { size_t n0 = cells.size(); for (size_t i = 0; i < n0; i++) { if (cells[i].first.attr) continue; if (cells[i].first.key == "oct" && cells[i].first.octlen % 8 && cells[i].first.octlen > 70) continue; auto c2 = cells[i]; c2.first.flag = 1; cells.push_back(c2); } }
   if (a.thorough() && a.worker == 0) {  // fresh RSA keys around the threshold
     static std::vector<KeySpec> fresh; for (const char *w : {"rsa2047", "rsa2048", "rsa1024"}) fresh.push_back(gen_key(w));
     for (auto &k : fresh) { FIX[k.name] = k; for (int prov = 0; prov < 2; prov++) for (int op = 0; op < 2; op++) for (auto al : RS) cells.push_back({Cell{prov, k.name, 0, al, op}, k}); }
